@@ -24,7 +24,9 @@ func vName(tag string) string {
 }
 
 // VerifC13PacketGenesis: one entry of each packet-state family survives export -> validate -> import -> export.
-func VerifC13PacketGenesis() {
+func VerifC13PacketGenesis() { c13PacketGenesis() }
+
+func c13PacketGenesis() {
 	rt.Opt("exact-decimal")
 	rt.Opt("structured-keys")
 	rt.Abstract("github.com/cosmos/cosmos-sdk/x/auth/types.NewEmptyModuleAccount")
